@@ -1161,8 +1161,8 @@ SUM_LEG_FINDING = {
 
 def sum_leg_fusion_signature(psi, geo, exc):
     """True iff `exc` is the failure described in SUM_LEG_FINDING: the two tensors of some lattice bond cannot be contracted
-    over that bond although their fused bond legs have the same fusion tree and identical leaves, and differ in the charges
-    recorded at a direct-sum node."""
+    over that bond although their fused bond legs have the same fusion tree, and an inner direct-sum node of the tree holds
+    fewer charges than its summands, differently on the two sides."""
     import yastn
     if type(exc).__name__ != "YastnError" or "Bond dimensions do not match" not in str(exc):
         return False
@@ -1179,10 +1179,25 @@ def sum_leg_fusion_signature(psi, geo, exc):
         h0, h1 = psi[s0].get_legs(axes=a0).hf, psi[s1].get_legs(axes=a1).hf
         if h0.tree != h1.tree or h0.op != h1.op:
             continue
-        leaves_equal = all(t0 == t1 and D0 == D1 for l, t0, t1, D0, D1 in zip(h0.tree[1:], h0.t, h1.t, h0.D, h1.D) if l == 1)
-        sum_node_differs = any(o == "s" and set(t0) != set(t1) for o, t0, t1 in zip(h0.op[1:], h0.t, h1.t))
-        if leaves_equal and sum_node_differs:
-            return True
+        tree = h0.tree
+
+        def end(i):   # index behind the subtree rooted at node i
+            j, leaves = i + 1, (0 if tree[i] > 1 else 1)
+            while leaves < tree[i]:
+                leaves += tree[j] == 1
+                j += 1
+            return j
+        for i in range(1, len(tree)):
+            if h0.op[i] != "s":
+                continue
+            kids, j = [], i + 1
+            while j < end(i):
+                kids.append(j)
+                j = end(j)
+            n0, n1 = set(h0.t[i - 1]), set(h1.t[i - 1])
+            lost = any(set(h.t[i - 1]) != set().union(*[set(h.t[k - 1]) for k in kids]) for h in (h0, h1))
+            if lost and n0 != n1:   # a direct-sum node without some charge of its summands, on one side only
+                return True
     return False
 
 
